@@ -184,7 +184,7 @@ def method(interp, xs, name, args, kwargs):
     from . import mlist
     if isinstance(xs, MList) and name in ('append', 'insert', 'pop', 'extend', 'copy', 'clear'):
         return mlist.method(interp, xs, name, args, kwargs)
-    if name in ('append', 'insert', 'pop', 'extend', 'clear', 'remove', 'sort', 'reverse'):
+    if name in ('insert', 'pop', 'clear', 'remove', 'sort', 'reverse'):
         raise Unsupported('mutation (%s) of an immutable symbolic sequence: declare it MListOf(...)' % name)
     if name == '__len__':
         return wrap(xs.length)
